@@ -8,9 +8,9 @@ from ..terms import fmt, ZERO, num
 from . import c09
 
 
-def pure(ctx, rule, qn, ps):
+def pure(ctx, rule, qn, ps, ignore=()):
     for p in ps:
-        ws = heap_writes(p)
+        ws = [w for w in heap_writes(p) if not (w.loc[0] == 'sub' and w.loc[1][0] == 'attr' and w.loc[1][1] == V('self') and w.loc[1][2] in ignore)]
         ctx.require(not ws, rule, '%s keeps no state between calls' % qn, ws[0].site if ws else None, [fmt(w.loc) for w in ws][:3], key='%s|%s|stateless' % (rule, qn))
 
 
@@ -27,6 +27,18 @@ def s1_membership(ctx):
     qn = 'DynamicUniverse.get_assets'
     fn = ctx.fn(qn)
     ps = summarise(ctx, qn, policy=default_policy)
+    from ..lib import without_sound_memo_hits
+    ps, memo_fields = without_sound_memo_hits(ctx, 'C19.S1', fn, ps, 'C19.S1|%s' % qn)
+
+    def unlist(p):
+        # list(<list comprehension>) is that list
+        v = p.value
+        if v is not None and v[0] == 'call' and v[1] == ('ext', 'LIST') and len(v[2]) == 1 and v[2][0][0] == 'comp' and v[2][0][1] in ('list', 'gen'):
+            import copy
+            p = copy.copy(p)
+            p.value = ('comp', 'list') + tuple(v[2][0][2:])
+        return p
+    ps = [unlist(p) for p in ps]
     ok1 = len(ps) == 1 and ps[0].outcome == 'return' and ps[0].value[0] == 'comp' and ps[0].value[1] == 'list' and len(ps[0].value[3]) == 1
     if ctx.require(ok1 if ok1 else None, 'C19.S1', 'DynamicUniverse.get_assets is one list comprehension', fn.site(), [fmt(p.value)[:120] if p.value else p.outcome for p in ps]):
         comp = ps[0].value
@@ -96,7 +108,7 @@ def s1_membership(ctx):
         if bad == 0:
             ctx.holds('C19.S1', 'membership filter agrees with the oracle on all %d (is-None x ordering) cases' % n, fn.site())
         ctx.sample({'rule': 'C19.S1', 'filter': [fmt(c) for c in ifs], 'cases': n})
-    ctx.sub(pure, 'C19.S1', qn, ps)
+    ctx.sub(pure, 'C19.S1', qn, ps, memo_fields)
     for ip in summarise(ctx, 'DynamicUniverse.__init__', policy=default_policy):
         w = heap_writes(ip, 'asset_dates')
         ctx.require(len(w) == 1 and w[0].value == V('asset_dates'), 'C19.S1', 'the universe keeps the entry-date map it is given, unmodified (None stays None)',
